@@ -649,6 +649,7 @@ class BlockNormalizer:
         out = self.n21_unflatten_pairs(out)
         out = self.n28_enumerate_to_index(out)
         out = self.n29_optional_value_guard(out)
+        out = self.n30_copy_sort_truncate(out)
         if len(out) != len(stmts) or any(a is not b for a, b in zip(out, stmts)):
             self.changed = True
             return out if out else [ast.Pass()]
@@ -714,9 +715,17 @@ class BlockNormalizer:
                     for b in s.body:
                         stored |= _names_stored(b)
                     rebinding_D = isinstance(D, ast.Name) and D.id in stored
+
+                    def leaks(name):
+                        # the loop variable is read after the loop (Python keeps the last binding): the loop cannot be re-keyed
+                        if self.scope is None:
+                            return False
+                        inside = sum(1 for b in s.body for x in ast.walk(b) if isinstance(x, ast.Name) and x.id == name and isinstance(x.ctx, ast.Load))
+                        return self.scope.loads.get(name, 0) > inside
+
                     if s.iter.func.attr == "items" and isinstance(s.target, ast.Tuple) and len(s.target.elts) == 2 and all(isinstance(e, ast.Name) for e in s.target.elts):
                         k, v = s.target.elts
-                        if v.id not in stored and k.id not in stored and not rebinding_D:
+                        if v.id not in stored and k.id not in stored and not rebinding_D and not leaks(v.id):
                             sub = ast.Subscript(value=copy.deepcopy(D), slice=ast.Name(id=k.id, ctx=ast.Load()), ctx=ast.Load())
                             body = [_subst(b, {v.id: sub}) for b in s.body]
                             it = ast.Call(func=ast.Attribute(value=copy.deepcopy(D), attr="keys", ctx=ast.Load()), args=[], keywords=[])
@@ -724,7 +733,7 @@ class BlockNormalizer:
                             ast.fix_missing_locations(new)
                             out.append(new)
                             continue
-                    if s.iter.func.attr == "values" and isinstance(s.target, ast.Name) and s.target.id not in stored and not rebinding_D:
+                    if s.iter.func.attr == "values" and isinstance(s.target, ast.Name) and s.target.id not in stored and not rebinding_D and not leaks(s.target.id):
                         kname = f"__key_of_{s.target.id}"
                         sub = ast.Subscript(value=copy.deepcopy(D), slice=ast.Name(id=kname, ctx=ast.Load()), ctx=ast.Load())
                         body = [_subst(b, {s.target.id: sub}) for b in s.body]
@@ -1313,6 +1322,62 @@ class BlockNormalizer:
             i += 1
         return out
 
+    def n30_copy_sort_truncate(self, stmts):
+        """k = list(E) | E.copy() | E[:] | [comprehension];  k.sort(**kw)   ->   k = sorted(E, **kw)
+        k = <fresh list>;  del k[a:]                                      ->   k = <fresh list>[:a]
+        (k is a fresh list nobody else holds, so sorting / cutting it in place or building the result anew is the same)."""
+        out = list(stmts)
+        i = 0
+        while i + 1 < len(out):
+            a, b = out[i], out[i + 1]
+            if isinstance(a, ast.Assign) and len(a.targets) == 1 and isinstance(a.targets[0], ast.Name):
+                k = a.targets[0].id
+                v = a.value
+                src = None
+                if isinstance(v, ast.Call) and isinstance(v.func, ast.Name) and v.func.id == "list" and len(v.args) == 1 and not v.keywords:
+                    src = v.args[0]
+                elif isinstance(v, ast.Call) and isinstance(v.func, ast.Attribute) and v.func.attr == "copy" and not v.args and not v.keywords:
+                    src = v.func.value
+                elif isinstance(v, ast.Subscript) and isinstance(v.slice, ast.Slice) and v.slice.lower is None and v.slice.upper is None and v.slice.step is None:
+                    src = v.value
+                elif isinstance(v, ast.ListComp):
+                    src = v
+                fresh = src is not None or (isinstance(v, ast.Call) and isinstance(v.func, ast.Name) and v.func.id == "sorted") or (isinstance(v, ast.Subscript) and isinstance(v.value, ast.Call) and isinstance(v.value.func, ast.Name) and v.value.func.id == "sorted")
+                # in-place sort of the fresh copy
+                if src is not None and isinstance(b, ast.Expr) and isinstance(b.value, ast.Call) and isinstance(b.value.func, ast.Attribute) and b.value.func.attr == "sort" and isinstance(b.value.func.value, ast.Name) and b.value.func.value.id == k and not b.value.args and k not in _names_loaded(src):
+                    new = ast.Assign(targets=[ast.Name(id=k, ctx=ast.Store())], value=ast.Call(func=ast.Name(id="sorted", ctx=ast.Load()), args=[src], keywords=b.value.keywords))
+                    out[i:i + 2] = [ast.fix_missing_locations(ast.copy_location(new, a))]
+                    if self.scope is not None:
+                        self.scope.recount()
+                    continue
+                # truncation after intermediate statements that only read k inside pure expressions:
+                #   k = V; n = f(k); del k[n:]   ->   n = f(V); k = V[:n]
+                if fresh and _is_simple_expr(v) and not isinstance(b, ast.Delete):
+                    j = i + 1
+                    mids = []
+                    while j < len(out) and isinstance(out[j], ast.Assign) and len(out[j].targets) == 1 and isinstance(out[j].targets[0], ast.Name) and out[j].targets[0].id != k and _is_simple_expr(out[j].value) and len(mids) < 3:
+                        mids.append(out[j])
+                        j += 1
+                    d = out[j] if j < len(out) else None
+                    if mids and isinstance(d, ast.Delete) and len(d.targets) == 1 and isinstance(d.targets[0], ast.Subscript) and isinstance(d.targets[0].value, ast.Name) and d.targets[0].value.id == k and isinstance(d.targets[0].slice, ast.Slice) and d.targets[0].slice.upper is None and d.targets[0].slice.step is None and d.targets[0].slice.lower is not None and not (_names_stored(a) & set().union(*[_names_loaded(m_) for m_ in mids]) - {k}):
+                        new_mids = [_subst(m_, {k: v}) for m_ in mids]
+                        cut = ast.Subscript(value=copy.deepcopy(v), slice=ast.Slice(lower=None, upper=d.targets[0].slice.lower, step=None), ctx=ast.Load())
+                        new = ast.Assign(targets=[ast.Name(id=k, ctx=ast.Store())], value=cut)
+                        out[i:j + 1] = [ast.fix_missing_locations(m_) for m_ in new_mids] + [ast.fix_missing_locations(ast.copy_location(new, a))]
+                        if self.scope is not None:
+                            self.scope.recount()
+                        continue
+                # truncation of a fresh list by `del k[a:]`
+                if fresh and isinstance(b, ast.Delete) and len(b.targets) == 1 and isinstance(b.targets[0], ast.Subscript) and isinstance(b.targets[0].value, ast.Name) and b.targets[0].value.id == k and isinstance(b.targets[0].slice, ast.Slice) and b.targets[0].slice.upper is None and b.targets[0].slice.step is None and b.targets[0].slice.lower is not None:
+                    cut = ast.Subscript(value=v, slice=ast.Slice(lower=None, upper=b.targets[0].slice.lower, step=None), ctx=ast.Load())
+                    new = ast.Assign(targets=[ast.Name(id=k, ctx=ast.Store())], value=cut)
+                    out[i:i + 2] = [ast.fix_missing_locations(ast.copy_location(new, a))]
+                    if self.scope is not None:
+                        self.scope.recount()
+                    continue
+            i += 1
+        return out
+
     def n11_coalesce_alias(self, stmts):
         """t = E ; ... uses of t ... ; a = t   ->   a = E ; ... uses of a ...    when t is defined once, every use of t lies
         between its definition and the alias statement in this block, and `a` is not mentioned in between."""
@@ -1613,7 +1678,8 @@ def _replace_tail_returns(block, make_stmt):
 class Inliner:
     """N6: inline private, non-anchor, straight-line helpers of the same module."""
 
-    def __init__(self, tree: ast.Module, baseline_helpers_ok: bool = True, foreign_refs: set | None = None, foreign_defs: set | None = None):
+    def __init__(self, tree: ast.Module, baseline_helpers_ok: bool = True, foreign_refs: set | None = None, foreign_defs: set | None = None, inherited: dict | None = None):
+        self.inherited = inherited or {}  # (class, helper) -> (FunctionDef from a base class in another module, imports it needs, names)
         self.foreign_refs = foreign_refs or set()
         self.foreign_defs = foreign_defs or set()  # function names defined in other modules: a method of that name may be an override
         self.tree = tree
@@ -1632,6 +1698,24 @@ class Inliner:
                 for b in n.body:
                     if isinstance(b, ast.FunctionDef):
                         self._consider(b, n)
+        # private helpers inherited from base classes that live in other modules
+        self.foreign_fns = {}
+        bound_here = set()
+        for st in self.tree.body:
+            if isinstance(st, (ast.Import, ast.ImportFrom)):
+                bound_here |= {(a.asname or a.name).split(".")[0] for a in st.names}
+            elif isinstance(st, (ast.FunctionDef, ast.ClassDef)):
+                bound_here.add(st.name)
+            elif isinstance(st, (ast.Assign, ast.AnnAssign)):
+                bound_here |= {t.id for t in (st.targets if isinstance(st, ast.Assign) else [st.target]) if isinstance(t, ast.Name)}
+        for (cname, hname), (fn, imports, names) in self.inherited.items():
+            cls = next((c for c in self.tree.body if isinstance(c, ast.ClassDef) and c.name == cname), None)
+            if cls is None or (cname, hname) in self.helpers:
+                continue
+            before = set(self.helpers)
+            self._consider(fn, cls)
+            if (cname, hname) in self.helpers and (cname, hname) not in before:
+                self.foreign_fns[id(self.helpers[(cname, hname)][0])] = [(nm, imp) for nm, imp in zip(names, imports) if nm not in bound_here]
 
     def _consider(self, fn: ast.FunctionDef, cls):
         name = fn.name
@@ -1645,6 +1729,8 @@ class Inliner:
             return
         if any(d in ("property", "abstractmethod") or d.endswith(".setter") for d in decos):
             return
+        if any(d not in ("staticmethod", "classmethod") for d in decos) or any(isinstance(d, ast.Call) for d in fn.decorator_list):
+            return  # a decorated function (memoised, registered, wrapped) is not its body
         if fn.args.vararg or fn.args.kwarg or fn.args.kwonlyargs:
             return
         body = [s for s in fn.body if not (isinstance(s, ast.Expr) and isinstance(s.value, ast.Constant))]
@@ -1744,8 +1830,17 @@ class Inliner:
                     grew = True
         return any(isinstance(c, ast.ClassDef) and c.name in subs and c is not owner and any(isinstance(b, ast.FunctionDef) and b.name == name for b in c.body) for c in self.tree.body)
 
+    def _note_foreign(self, fn):
+        """An inherited helper from another module was inlined: make the names it uses resolvable in this module."""
+        for nm, imp in self.foreign_fns.get(id(fn), []):
+            if not any(isinstance(st, (ast.Import, ast.ImportFrom)) and any((a.asname or a.name).split(".")[0] == nm for a in st.names) for st in self.tree.body):
+                pos = next((k for k, st in enumerate(self.tree.body) if not (isinstance(st, ast.Expr) and isinstance(st.value, ast.Constant)) and not (isinstance(st, ast.ImportFrom) and st.module == "__future__")), 0)
+                ast.fix_missing_locations(imp)
+                self.tree.body.insert(pos, imp)
+
     def _bind(self, fn: ast.FunctionDef, call: ast.Call, skip: int, recv: ast.expr | None):
         """-> (mapping param -> expr, prelude statements) or None"""
+        self._note_foreign(fn)
         params = [a.arg for a in fn.args.posonlyargs + fn.args.args]
         mapping = {}
         prelude = []
@@ -2492,7 +2587,7 @@ def ungroup_by_key(tree: ast.Module) -> bool:
     return changed
 
 
-def normalize_module(tree: ast.Module, max_rounds: int = 6, returns_arg: dict | None = None, foreign_refs: set | None = None, foreign_defs: set | None = None) -> ast.Module:
+def normalize_module(tree: ast.Module, max_rounds: int = 6, returns_arg: dict | None = None, foreign_refs: set | None = None, foreign_defs: set | None = None, inherited: dict | None = None) -> ast.Module:
     for _ in range(max_rounds):
         bn = BlockNormalizer()
         bn.run(tree)
@@ -2514,7 +2609,7 @@ def normalize_module(tree: ast.Module, max_rounds: int = 6, returns_arg: dict | 
             bn.changed = True
         if separate_returned_argument(tree, returns_arg or {}):
             bn.changed = True
-        inl = Inliner(tree, foreign_refs=foreign_refs or set(), foreign_defs=foreign_defs or set())
+        inl = Inliner(tree, foreign_refs=foreign_refs or set(), foreign_defs=foreign_defs or set(), inherited=inherited or {})
         inl.run()
         if not (bn.changed or inl.changed):
             break
